@@ -23,3 +23,38 @@ def load_repo():
 def hx(b) -> str:
     b = bytes(b)
     return b.hex() if b else "-"
+
+
+class Captured:
+    """stands for the message `_call_decode_function` would build; carries the reassembled payload"""
+    def __init__(self, pgn, data):
+        self.pgn = pgn
+        self.payload = bytes(data)[::-1]   # the decoder's `data` is the reversed wire order
+
+
+def fast_decoder():
+    """a real NMEA2000Decoder whose per-PGN decode step is replaced by a capture of the combined payload"""
+    from nmea2000.decoder import NMEA2000Decoder
+    d = NMEA2000Decoder()
+
+    def cap(pgn, priority, src, dest, timestamp, data, source_iso_name, raw_can_data):
+        return Captured(pgn, data)
+    d._call_decode_function = cap
+    return d
+
+
+def fast_feed(d, key, frame_wire: bytes):
+    """one wire-order frame into the real reassembler of stream key=(pgn,src,dst); returns the canonical observation"""
+    pgn, src, dst = key
+    try:
+        r = d._decode_fast_message(pgn, 2, src, dst, None, bytes(frame_wire)[::-1], None, b"")
+        obs = "none" if r is None else "complete:" + hx(r.payload)
+    except Exception:
+        obs = "error"
+    rec = d.data.get(f"{pgn}_{src}_{dst}")
+    if rec is None or rec.sequence_counter == -1:
+        rs = "norec"
+    else:
+        rs = f"rec:{rec.payload_length}:{rec.sequence_counter}:{rec.bytes_stored}:{len(rec.frames)}"
+    live = sum(1 for v in d.data.values() if v.sequence_counter != -1)
+    return obs, rs, live
